@@ -82,16 +82,32 @@ def case_elements(ctx, rng):
         for e_ in extra_:
             terms.insert(rng.randint(0, len(terms)), e_)
         ctx.count("feature", "cancelling-terms")
-    lib_terms = [(c, to_lib_term(sr, rng, t)) for c, t in terms]
+    passed = []
+    shared = {}
+
+    def coeff_obj(c):
+        # equal coefficients are sometimes ONE shared object (as when a parameter is reused)
+        if c in shared and rng.random() < 0.7:
+            return shared[c]
+        shared[c] = gen.typed_number(rng, c, passed)
+        return shared[c]
+
+    lib_terms = [(coeff_obj(c), to_lib_term(sr, rng, t)) for c, t in terms]
     lib_bases = [[to_lib_term(sr, rng, st) for st in b] for b in bases]
-    wit = {"terms": repr(terms), "bases": repr(bases)}
+    wit = {"terms": repr(terms), "bases": repr(bases), "coefficient_types": sorted({type(o_).__name__ for o_, _ in passed})}
     o = ctx.call(sr.build_local_fermionic_elements, lib_terms, lib_bases)
     ctx.evaluated()
     ctx.count("stream", "elements")
     if not o.ok:
         ctx.violation(f"elements-raises-{o.excname}", repr(o.exc), wit)
         return
-    got = o.value
+    got = {k: float(np.real(v)) if np.ndim(v) == 0 and not np.iscomplexobj(v) else complex(v) for k, v in o.value.items()}
+    for obj_, val_ in passed:
+        if float(obj_) != val_:
+            ctx.violation("coefficient-object-modified", f"a coefficient passed as {type(obj_).__name__} held {val_} before build_local_fermionic_elements and {float(obj_)} after it", wit)
+            return
+    if any(isinstance(o_, np.ndarray) for o_, _ in passed):
+        ctx.count("feature", "0-d-array-coefficients")
     exp = fock.vev_elements([(c, list(t)) for c, t in terms], bases)
     keys = set(got) | set(exp)
     bad = {k: (got.get(k, 0.0), exp.get(k, 0.0)) for k in keys if abs(got.get(k, 0.0) - exp.get(k, 0.0)) > 1e-12}
